@@ -1352,6 +1352,45 @@ def drain_loops(program, log):
         rewrite(f.node.body, f)
 
 
+def split_parallel_assign(program, log):
+    """`a, b = X, Y` with X, Y plain reads (names, attribute chains, constants)
+    none of which mentions a or b reads `a = X; b = Y`."""
+    def rewrite(body, f):
+        i = 0
+        while i < len(body):
+            st = body[i]
+            for fld in ('body', 'orelse', 'finalbody'):
+                sub_ = getattr(st, fld, None)
+                if isinstance(sub_, list) and sub_ and isinstance(
+                        sub_[0], ast.stmt):
+                    rewrite(sub_, f)
+            for h in getattr(st, 'handlers', []) or []:
+                rewrite(h.body, f)
+            if isinstance(st, ast.Assign) and len(st.targets) == 1 \
+                    and isinstance(st.targets[0], ast.Tuple) \
+                    and isinstance(st.value, ast.Tuple) \
+                    and len(st.targets[0].elts) == len(st.value.elts) \
+                    and all(isinstance(t, ast.Name)
+                            for t in st.targets[0].elts) \
+                    and all(isinstance(v, ast.Constant) or dotted(v)
+                            for v in st.value.elts):
+                names = {t.id for t in st.targets[0].elts}
+                if not any(isinstance(x, ast.Name) and x.id in names
+                           for v in st.value.elts for x in ast.walk(v)):
+                    new = [ast.copy_location(ast.Assign([t], v), st)
+                           for t, v in zip(st.targets[0].elts, st.value.elts)]
+                    for n_ in new:
+                        ast.fix_missing_locations(n_)
+                    body[i:i + 1] = new
+                    log.append(f'{f.where}: parallel assignment at line '
+                               f'{st.lineno} split')
+                    i += len(new)
+                    continue
+            i += 1
+    for f in program.all_functions():
+        rewrite(f.node.body, f)
+
+
 def rotate_idiom(program, log):
     """`q.append(q.popleft())` on a deque known to be non-empty (an earlier
     statement of the same block returns when it is empty / has at most one
@@ -1894,7 +1933,8 @@ def run(program):
     program.cow = set()
     for step in (explicit_properties, walrus_out, inline_simple_decorators,
                  sentinel_lookups, setdefault_fresh, mirror_locals,
-                 rotate_idiom, drain_loops, inline_aliases, context_managers_to_try, rpartition_keys,
+                 rotate_idiom, drain_loops, split_parallel_assign,
+                 inline_aliases, context_managers_to_try, rpartition_keys,
                  slices_of_islice,
                  pop_last_idiom,
                  bool_dispatch_tables, yield_from_genexp, copy_on_write_sets,
